@@ -23,8 +23,8 @@ RULE = ("case = (place a limit applies, size) with size in {L-2..L+2} for every 
         "Parallel output, Map output (non-terminal, terminal), Task ResultSelector output, definition (Create, Update), state machine / execution names (lengths and every forbidden character), "
         "history length. Non-trivial = |size - L| <= 2 (names: length 79..82 or a forbidden character). Distinct by (place, size).")
 
-DATA_PLACES = ["api_start", "api_start_obj", "api_sync", "callback", "task_reply", "task_reply_compact_discarded", "task_reply_padded_discarded", "pass_nonterminal", "pass_terminal", "task_selector_terminal", "parallel_nonterminal",
-               "parallel_terminal", "map_nonterminal", "map_terminal"]
+DATA_PLACES = ["api_start", "api_start_obj", "api_sync", "callback", "task_reply", "task_reply_compact_discarded", "task_reply_padded_discarded", "task_reply_multibyte_discarded", "pass_nonterminal", "pass_terminal", "task_selector_terminal", "parallel_nonterminal",
+               "parallel_terminal", "map_nonterminal", "map_terminal", "map_inner_terminal_discarded", "parallel_inner_terminal_discarded", "map_inner_terminal_selected"]
 DEF_PLACES = ["def_create", "def_update"]
 FORBIDDEN = " <>{}[]?*\"#%\\^|~`$&,;:/"
 ALLOWED_PUNCT = "-_.+=@!'()"
@@ -160,12 +160,17 @@ def run_data(place, size):
                 w.add_worker("f", lambda i, p, props: [(0, W.Raw(json.dumps(value)))])
                 definition = {"StartAt": "T", "States": {"T": T("f", W, End=True)}}
                 want = value
-            elif place in ("task_reply_compact_discarded", "task_reply_padded_discarded"):
+            elif place in ("task_reply_compact_discarded", "task_reply_padded_discarded", "task_reply_multibyte_discarded"):
                 # the reply text is not in json.dumps' default spacing, so the text the worker sent and a re-serialised copy differ in length; the Task discards
                 # the result (ResultPath null), so that only the reply itself is subject to the quota
                 if place == "task_reply_compact_discarded":
                     k = size - len('{"a":"","b":[1,2,3],"c":{"d":null}}')
                     text = '{"a":"%s","b":[1,2,3],"c":{"d":null}}' % ("a" * k)
+                elif place == "task_reply_multibyte_discarded":
+                    # the reply is UTF-8 text with characters of two and three bytes: it has `size` characters and more bytes than that
+                    k = size - len('{"a":"","b":"é€"}')
+                    m = min(500, k // 2)
+                    text = '{"a":"%s","b":"é€"}' % ("é" * m + "€" * m + "a" * (k - 2 * m))
                 else:
                     core = '{ "a" : [ 1 , 2 ] ,\n  "b" : "%s" }' % ("b" * min(1000, max(0, size - 40)))
                     text = core + " " * (size - len(core) - 1) + "\n"
@@ -209,9 +214,31 @@ def run_data(place, size):
                     definition = {"StartAt": "X", "States": {"X": dict(mp, End=True)}}
                 else:
                     definition = {"StartAt": "X", "States": {"X": dict(mp, Next="Q"), "Q": {"Type": "Pass", "End": True}}}
+            elif place in ("map_inner_terminal_discarded", "parallel_inner_terminal_discarded", "map_inner_terminal_selected"):
+                # the output of the last state of an iteration / a branch is a state output of its own: the enclosing state does not hand the results on in full
+                # (ResultPath null, or a ResultSelector that reduces them), so only the inner state's output is near the limit
+                odd = (size - 14) % 2
+                key = "vv" if odd else "v"
+                item = S((size - 14 - odd) // 2)
+                inner = {"Type": "Pass", "Parameters": {"w.$": "$", key + ".$": "$"}, "End": True}
+                if len(json.dumps({"w": item, key: item})) != size:
+                    raise HarnessError("inner output construction for %s" % place)
+                if place.startswith("map"):
+                    inp = {"items": [item, "small"]}
+                    fan = {"Type": "Map", "ItemsPath": "$.items", "ItemProcessor": {"StartAt": "I", "States": {"I": inner}}}
+                else:
+                    inp = item
+                    fan = {"Type": "Parallel", "Branches": [{"StartAt": "I", "States": {"I": inner}}, {"StartAt": "B", "States": {"B": {"Type": "Pass", "Result": 0, "End": True}}}]}
+                if place.endswith("_selected"):
+                    fan["ResultSelector"] = {"n.$": "States.ArrayLength($)"}
+                    want = {"n": 2}
+                else:
+                    fan["ResultPath"] = None
+                    want = inp
+                definition = {"StartAt": "X", "States": {"X": dict(fan, Next="Q"), "Q": {"Type": "Pass", "End": True}}}
             else:
                 raise HarnessError("unknown place %r" % place)
-            if not place.endswith("_discarded") and len(json.dumps(want)) != size:
+            if not (place.endswith("_discarded") or place.endswith("_selected")) and len(json.dumps(want)) != size:
                 raise HarnessError("payload construction for %s: %d != %d" % (place, len(json.dumps(want)), size))
             if len(json.dumps(inp)) > Lm:
                 raise HarnessError("input itself over the limit")
